@@ -31,8 +31,11 @@ func workerMain(args []string) {
 	// An address-space limit turns an absurd allocation into an immediate
 	// fatal "out of memory" (observed by the parent as class exit) instead of
 	// minutes of page zeroing.
-	lim := syscall.Rlimit{Cur: 3 << 30, Max: 3 << 30}
-	syscall.Setrlimit(syscall.RLIMIT_AS, &lim)
+	// (not under the race detector, whose shadow memory needs the address space)
+	if os.Getenv("VERIF_NO_RLIMIT") == "" {
+		lim := syscall.Rlimit{Cur: 3 << 30, Max: 3 << 30}
+		syscall.Setrlimit(syscall.RLIMIT_AS, &lim)
+	}
 	in := bufio.NewReaderSize(os.Stdin, 1<<20)
 	out := bufio.NewWriterSize(os.Stdout, 1<<20)
 	for {
@@ -63,6 +66,7 @@ func workerMain(args []string) {
 
 type Worker struct {
 	Env      []string // extra environment (e.g. TZ=...)
+	Bin      string   // another build of this program (the -race build), default: this executable
 	cmd      *exec.Cmd
 	in       io.WriteCloser
 	out      *bufio.Reader
@@ -80,6 +84,9 @@ func (w *Worker) start() error {
 	self, err := os.Executable()
 	if err != nil {
 		return err
+	}
+	if w.Bin != "" {
+		self = w.Bin
 	}
 	cmd := exec.Command(self, "worker")
 	cmd.Env = append(append(os.Environ(), "GOMEMLIMIT=6GiB"), w.Env...)
